@@ -28,10 +28,12 @@ def log(*a):
 def known_env():
     ks = []
     for k in load_known():
-        if k.get("status") == "open" and k.get("match", {}).get("class") and not k["match"].get("detail_contains"):
-            ks.append("%s:%s" % (k["property"], k["match"]["class"]))
-            for p in k.get("also_affects", []):
-                ks.append("%s:%s" % (p, k["match"]["class"]))
+        m = k.get("match", {})
+        if k.get("status") == "open" and not m.get("detail_contains"):
+            for c in ([m["class"]] if m.get("class") else []) + list(m.get("classes", [])):
+                ks.append("%s:%s" % (k["property"], c))
+                for p in k.get("also_affects", []):
+                    ks.append("%s:%s" % (p, c))
     return ",".join(sorted(set(ks)))
 
 
@@ -228,6 +230,8 @@ def known_match(prop, cls, detail, known):
             continue
         m = k.get("match", {})
         if m.get("class") and m["class"] != cls:
+            continue
+        if m.get("classes") and cls not in m["classes"]:
             continue
         if m.get("detail_contains") and m["detail_contains"] not in detail:
             continue
